@@ -77,6 +77,12 @@ def gen_case(seed, idx):
     c['max_steps'] = (int(rng.integers(1, max(2, int(nsteps))))
                       if rng.random() < 0.07 else None)
     c['cfl'] = float(rng.uniform(0.1, 1.0))
+    # how the solver is told: constructor arguments, or a solver made with
+    # other values (shorter or longer run) and then the setters in some order
+    # (what Application does with create_solver() + command-line options)
+    if rng.random() < 0.35:
+        c['setters'] = [int(i) for i in rng.permutation(7)]
+        c['tf_before'] = float(tf * rng.choice([0.1, 0.37, 2.5]))
     return c
 
 
@@ -119,10 +125,24 @@ def run_solver(c):
     cap = int(4 * (c['tf'] / smin + c['n_damp'] * 8 +
                    len(c['output_at_times']) + 2) + 100)
     integ = StubIntegrator(trace, c['script'], cap)
-    s = Solver(dim=1, integrator=integ, tf=c['tf'], dt=c['dt'],
-               n_damp=c['n_damp'], adaptive_timestep=c['adaptive'] != 'off',
-               cfl=c['cfl'], output_at_times=c['output_at_times'],
-               pfreq=c['pfreq'])
+    if c.get('setters') is None:
+        s = Solver(dim=1, integrator=integ, tf=c['tf'], dt=c['dt'],
+                   n_damp=c['n_damp'],
+                   adaptive_timestep=c['adaptive'] != 'off',
+                   cfl=c['cfl'], output_at_times=c['output_at_times'],
+                   pfreq=c['pfreq'])
+    else:
+        s = Solver(dim=1, integrator=integ, tf=c['tf_before'],
+                   dt=c['dt'] * 3.0, pfreq=c['pfreq'] + 1)
+        calls = [lambda: s.set_final_time(c['tf']),
+                 lambda: s.set_output_at_times(c['output_at_times']),
+                 lambda: s.set_time_step(c['dt']),
+                 lambda: s.set_print_freq(c['pfreq']),
+                 lambda: s.set_n_damp(c['n_damp']),
+                 lambda: s.set_cfl(c['cfl']),
+                 lambda: s.set_adaptive_timestep(c['adaptive'] != 'off')]
+        for i in c['setters']:
+            calls[i]()
     if c['max_steps'] is not None:
         s.set_max_steps(c['max_steps'])
     s.particles = []
@@ -304,7 +324,8 @@ def work(item):
     seed = item['seed']
     res = dict(evaluations=0, distinct=[], violations=[], samples=[],
                counters=dict(steps=0, dumps=0, requested_times=0,
-                             callbacks=0, ended_by_max_steps=0), sets={})
+                             callbacks=0, ended_by_max_steps=0,
+                             configured_by_setters=0), sets={})
     feats = set()
     for idx in range(item['lo'], item['hi']):
         c = gen_case(seed, idx)
@@ -315,6 +336,8 @@ def work(item):
         res['counters']['steps'] += n
         res['counters']['dumps'] += sum(1 for e in trace if e[0] == 'dump')
         res['counters']['requested_times'] += len(c['output_at_times'])
+        res['counters']['configured_by_setters'] += int(
+            c.get('setters') is not None)
         res['counters']['callbacks'] += sum(
             1 for e in trace if e[0] in ('pre', 'post'))
         if n >= 3 and (c['output_at_times'] or c['adaptive'] != 'off' or
